@@ -140,6 +140,9 @@ def read_raw_request_body(configuration: "config.Configuration",
     content_length = int(environ.get("CONTENT_LENGTH") or 0)
     if not content_length:
         return b""
+    if content_length < 0:
+        # read(-1) would read everything the client sends
+        raise RuntimeError("Invalid content length: %d" % content_length)
     content = environ["wsgi.input"].read(content_length)
     if len(content) < content_length:
         raise RuntimeError("Request body too short: %d" % len(content))
